@@ -42,6 +42,12 @@ def _str_hash(self):
     return int.from_bytes(hashlib.blake2b(_state["salt"] + str(self).encode(), digest_size=8).digest(), "big") >> 3
 
 
+def _salted(orig):
+    def h(self):
+        return int.from_bytes(hashlib.blake2b(_state["salt"] + repr(orig(self)).encode(), digest_size=8).digest(), "big") >> 3
+    return h
+
+
 def new_epoch(salt: int):
     _state["salt"] = str(salt).encode()
     _state["n"] = 0
@@ -63,10 +69,16 @@ def install():
                                          GroundedPredicate)
     identity = [GroundedEffect, NumericalExpressionTree, ConditionalEffect, UniversalEffect]
     string = [Predicate, GroundedPredicate, Precondition, UniversalPrecondition]
+    own = []
     for cls in identity:
-        if not ("__hash__" not in cls.__dict__ or cls.__dict__["__hash__"] is _id_hash):
-            raise RuntimeError(f"hash seam: {cls} defines its own __hash__")
-        cls.__hash__ = _id_hash
+        h = cls.__dict__.get("__hash__")
+        if h is not None and h is not _id_hash:
+            # the class (in the tree under test) hashes by value: keep its notion of equal-hash, salted per epoch
+            own.append(cls.__name__)
+            cls.__hash__ = _salted(h)
+        else:
+            cls.__hash__ = _id_hash
+    _installed["value_hashed_in_this_tree"] = own
     for cls in string:
         cls.__hash__ = _str_hash
     _installed.update(identity=[c.__name__ for c in identity], string=[c.__name__ for c in string])
